@@ -507,3 +507,53 @@ Proof.
       by (apply N.ltb_ge; exact Hlen).
     rewrite E, andb_false_r. reflexivity.
 Qed.
+
+(* ------------------------------------------------------------------ enumeration *)
+Lemma tnode_ind' (P : tnode -> Prop) :
+  (forall leaf ch, Forall (fun sc => P (snd sc)) ch -> P (TNode leaf ch)) -> forall t, P t.
+Proof.
+  intros H. fix IH 1. intros [leaf ch]. apply H.
+  induction ch as [|sc ch IHch]; constructor; [apply IH | exact IHch].
+Qed.
+
+(* the (key, leaf) pairs of the tree: exactly the keys that hold phrases, each with its leaf in leaf order *)
+Lemma tleaves_spec : forall t pre k l, tuniq t ->
+  (In (k, l) (tleaves pre t) <-> exists path ps, k = rev pre ++ path /\ tget path t = Some ps /\ l = sort_leaf ps).
+Proof.
+  induction t as [leaf ch IH] using tnode_ind'. intros pre k l Hu.
+  destruct (tuniq_children leaf ch Hu) as [Hnd Hall]. cbn [tleaves]. rewrite in_app_iff. split.
+  - intros [Hin|Hin].
+    + destruct leaf as [ps|]; [|contradiction]. destruct Hin as [Heq|[]]. inversion Heq; subst.
+      exists [], ps. rewrite app_nil_r. repeat split.
+    + apply in_flat_map in Hin as ([s c] & Hsc & Hin). cbn [fst snd] in Hin.
+      rewrite Forall_forall in IH, Hall.
+      destruct (proj1 (IH (s, c) Hsc (s :: pre) k l (Hall (s, c) Hsc)) Hin) as (path & ps & -> & Hg & ->).
+      exists (s :: path), ps. cbn [rev]. rewrite <- app_assoc. split; [reflexivity|]. split; [|reflexivity].
+      unfold tget in *. cbn [tsub tchildren]. rewrite (proj2 (find_child_in s c ch Hnd) Hsc). exact Hg.
+  - intros (path & ps & -> & Hg & ->). destruct path as [|s path].
+    + left. unfold tget in Hg. cbn [tsub tleaf] in Hg. subst leaf. rewrite app_nil_r. now left.
+    + right. unfold tget in Hg. cbn [tsub tchildren] in Hg.
+      destruct (find_child s ch) as [c|] eqn:Ef; [|discriminate].
+      apply (find_child_in s c ch Hnd) in Ef. apply in_flat_map. exists (s, c). split; [exact Ef|]. cbn [fst snd].
+      rewrite Forall_forall in IH, Hall. apply (IH (s, c) Ef (s :: pre) _ _ (Hall (s, c) Ef)).
+      exists path, ps. cbn [rev]. rewrite <- app_assoc. repeat split. exact Hg.
+Qed.
+
+Lemma sort_leaf_in p ps : In p (sort_leaf ps) <-> In p ps.
+Proof.
+  split; intros H; [eapply Permutation_in; [apply ssort_perm | exact H] | eapply Permutation_in; [apply Permutation_sym, ssort_perm | exact H]].
+Qed.
+
+(* ENUMERATION of the tree built from a list of entries: exactly the (key, phrase) pairs the list holds - a phrase
+   re-inserted under a key replaced the earlier one with the same string - and nothing else *)
+Theorem entries_build es k p :
+  In (k, p) (tentries (build es)) <-> exists ps, phrases_for es k = Some ps /\ In p ps.
+Proof.
+  unfold tentries, flatten_entries. rewrite in_flat_map. split.
+  - intros ([k' l] & Hin & Hp). cbn [fst snd] in Hp. apply in_map_iff in Hp as (p' & Heq & Hp'). inversion Heq; subst.
+    apply (tleaves_spec (build es) [] k l (tuniq_build es)) in Hin as (path & ps & -> & Hg & ->). cbn [rev app].
+    exists ps. rewrite <- tget_build. split; [exact Hg | now apply sort_leaf_in].
+  - intros (ps & Hg & Hp). exists (k, sort_leaf ps). split.
+    + apply (tleaves_spec (build es) [] k _ (tuniq_build es)). exists k, ps. rewrite tget_build. repeat split. exact Hg.
+    + cbn [fst snd]. apply in_map. now apply sort_leaf_in.
+Qed.
